@@ -21,7 +21,7 @@ MUTANTS = {
     "c02_ne_sigma": (D, "        if is_ne:\n            sigma = self.sigma_ne", "        if False:\n            sigma = self.sigma_ne", ["C02"]),
     "c02_min_to_sum": (B, "new_logprobne = min(self.logprobne, new_logprob_delta)", "new_logprobne = self.logprobne + new_logprob_delta", ["C02"]),
     "c02_delayed_copy": (B, "        self.delayed = m_other.delayed\n", "        pass\n", ["C02"]),
-    "c02_goback_wrong_pred": (S, "                for m in prev_m.prev:\n                    if edge_m.label == m.edge_m.label:", "                for m in prev_m.prev_other:\n                    if edge_m.label == m.edge_m.label:", ["C02"]),
+    "c02_goback_wrong_pred": (S, "                for m in prev_m.prev:\n                    if edge_m.key == m.edge_m.key:", "                for m in prev_m.prev_other:\n                    if edge_m.key == m.edge_m.key:", ["C02"]),
     # ---- C03
     "c03_startidx": (B, "            start_idx = self.early_stop_idx - 1\n", "            start_idx = max(0, self.early_stop_idx - 2)\n", ["C03"]),
     "c03_unique_inv": (B, "                if node != prev_node:\n                    self.node_path.append(node)\n                    prev_node = node", "                if node != prev_node or len(self.node_path) < 2:\n                    self.node_path.append(node)\n                    prev_node = node", ["C03"]),
